@@ -120,6 +120,8 @@ def _cowritten(ix, cls, G):
 
 
 def check(ix, rep):
+    from sa.rules import round11 as _r11
+    rep.floor('calls of set_ast inside the interpreter classes', _r11.check_set_ast_callers(ix, rep), 1)
     mons = [m for m in M.monitors(ix) if m.mode == 'online']
     rep.floor('online monitor classes', len(mons), 10)
     checked_ops = {}
